@@ -92,7 +92,7 @@ class AliasGen(Gen):
         if orig is None:
             return 0
         construct = r.choice(["init", "assign", "byvalue", "byvalue", "list_store", "field_store", "foreach", "return", "falls", "listlit", "boxing", "refcall", "same_twice",
-                              "same_twice", "part_ref", "part_ref", "global", "recursive", "operator", "operator", "nested_ref", "nested_ref"])
+                              "same_twice", "part_ref", "part_ref", "global", "recursive", "operator", "operator", "nested_ref", "nested_ref", "foreach_source", "foreach_source"])
         self.cells.add(("construct", construct, progcheck.tn(ty)))
         n0 = self.obs
         cp_name = self.fresh("k")
@@ -148,6 +148,28 @@ class AliasGen(Gen):
             e = Var(ev, ty[1])
             body = (self.mutation(e, r) if (ty[1] == T or is_struct(ty[1])) else [Assign(e, self.lit(ty[1]))]) + self.print_value(e)
             if not self.try_top([Print(Lit(T, "#%d:" % (self.obs + 1)), False), ForEach(ev, ty[1], orig, body)] + self.observe(orig)):
+                return 0
+            self.obs += 1
+            return self.obs - n0
+        elif construct == "foreach_source" and (is_list(ty) or ty == T):
+            # the loop iterates over a snapshot: changing the iterated variable inside the body (at a position not visited yet, by
+            # growing it, by replacing it) must not change what the remaining iterations see
+            ev = self.fresh("e")
+            ety = C if ty == T else ty[1]
+            e = Var(ev, ety)
+            last = Bin("index", orig, Un("laenge", orig, Z), ety)
+            newv = Lit(C, Char(r.choice("Zä€"))) if ty == T else self.lit(ety)
+            how = r.choice(["last", "last", "any", "grow"])
+            self.cells.add(("foreach_source", how, progcheck.tn(ty)))
+            if how == "last":
+                change = [Assign(last, newv)]
+            elif how == "grow":
+                change = [Assign(orig, Bin("verkettet", orig, newv, ty))] if ty != T else [Assign(orig, Bin("verkettet", orig, Lit(T, "+"), T))]
+                change = [If([(Bin("kleiner", Un("laenge", orig, Z), Lit(Z, 12), W), change)])]      # bounded growth
+            else:
+                change = self.mutation(orig, r)
+            body = change + self.print_value(e)
+            if not self.try_top([Print(Lit(T, "#%d:" % (self.obs + 1)), False), ForEach(ev, ety, orig, body)] + self.observe(orig)):
                 return 0
             self.obs += 1
             return self.obs - n0
